@@ -247,7 +247,8 @@ func (c *shardedMap) Walk(walkFn func(e Entry) error) (int, error) {
 		for _, v := range c.hashedBuckets[i].data {
 			b.RUnlock()
 
-			err := walkFn(v)
+			// Passing a copy, usage counter of the stored entry is updated concurrently by readers.
+			err := walkFn(TraitEntry{K: v.K, V: v.V, E: v.E, C: atomic.LoadInt64(&v.C)})
 			if err != nil {
 				return n, err
 			}
